@@ -566,7 +566,7 @@ class Ellipse(Conic):
         m[2, 2] = d.dot(c) - (r[0] * r[1] + 1)
 
         # normalize with abs(det(m))
-        m = m / (np.prod(np.maximum(r[:2], 1))) ** (2 / 3)
+        m = m / (np.prod(np.where(r[:2] > 0, r[:2], 1))) ** (2 / 3)
 
         kwargs["copy"] = False
         super().__init__(m, **kwargs)
